@@ -1,6 +1,7 @@
 package event
 
 import (
+	"github.com/emitter-io/emitter/internal/event/crdt"
 	"github.com/emitter-io/emitter/internal/verifrt"
 )
 
@@ -13,4 +14,10 @@ func VerifC09Keys(v *verifrt.T) {
 	v.Reach("decoded")
 	v.Assert(!p1, "C09.keys.decode-subscription-no-panic")
 	v.Assert(!p2, "C09.keys.decode-connection-no-panic")
+}
+
+// VerifRawSub puts a subscription entry with an arbitrary key and times into a state, the
+// way a payload decoded from the cluster port can contain it.
+func (st *State) VerifRawSub(key string, add, del int64) {
+	st.subsets[typeSub].(*crdt.Volatile).VerifRaw(key, add, del)
 }
